@@ -172,6 +172,9 @@ def check(col: Collector, tier: str):
     check_max_events(col)
     check_top_level_sites(col, repo, methods, pan)
     check_fill_scope_table(col, repo)
+    from sa.props._tr import check_prefix_test
+    col.floor("C01.R11", 2)
+    check_prefix_test(col, "C01.R11", repo)
 
 
 def check_get_rep(col, f):
